@@ -10,7 +10,7 @@ def run(tier, seed, replay=None):
     r = vlib.tlc("FindAPI", ("c19.cfg", vlib.cfg_text(c, ["ModeAcceptable", "Unsupported400", "ExportCase"])), timeout=7000, tag="c19")
     ck.add_tlc("FindAPI", r, "Accept header lists (0..2 headers x 1..%d media types of 6 kinds) x preferJson x 7 path kinds x empty/non-empty result set" % c["MaxTypes"])
     rep = vlib.run_harness(binary, ["c19", "-cases", os.path.join(r.workdir, "c19_cases.ndjson"), "-client-cases", os.path.join(r.workdir, "c19_client.ndjson")], timeout=7000)
-    if rep.get("extra", {}).get("read_error") or rep["inconclusive"]:
+    if rep.get("extra", {}).get("read_error") or (rep["inconclusive"] and not rep["divergences"]):
         raise vlib.Infra("c19 harness: %s" % rep.get("extra"))
     ck.add_report(rep)
     ck.cov["rule"] = ("one raw HTTP request per TLC state against the real rwriter inside an HTTP handler of the usual shape (New, NewProviderResponseWriter, "
